@@ -46,7 +46,8 @@ Record PInv (s : st) : Prop := {
   q_clres2 : forall t, m_pc (mm s) = MCommit SClosed t -> d_res (dk s) = true;
   q_launch : launched (mm s) -> forall k p, d_con (dk s) k = Some p -> m_res (mm s) k <> None;
   q_wait : m_state (mm s) = SWaiting -> m_pc (mm s) = MIdle -> m_sigs (mm s) = 0 ->
-           exists k p, d_con (dk s) k = Some p
+           exists k p, d_con (dk s) k = Some p;
+  q_dlate : early (d_state (dk s)) = false -> d_closed (dk s) = true
 }.
 
 Lemma pinv_init : PInv init.
@@ -104,7 +105,7 @@ Qed.
    the fin thread alone *)
 Lemma pinv_pc : forall s d' m' o',
   Inv2 sc s -> PInv s -> m_pc (mm s) <> MDone ->
-  d_con d' = d_con (dk s) -> d_full d' = d_full (dk s) ->
+  d_con d' = d_con (dk s) -> d_full d' = d_full (dk s) -> d_state d' = d_state (dk s) ->
   m_res m' = m_res (mm s) -> m_state m' = m_state (mm s) -> m_fin m' = m_fin (mm s) ->
   (d_closed (dk s) = true -> d_closed d' = true) ->
   (d_bcast (dk s) = true -> d_bcast d' = true) ->
@@ -129,7 +130,7 @@ Lemma pinv_pc : forall s d' m' o',
    exists k p, d_con d' k = Some p) ->
   PInv (mkSt d' m' o').
 Proof.
-  intros s d' m' o' J I Hpc Hcon Hfull Hmres Hmst Hmfin Hclm Hbcm Hresm
+  intros s d' m' o' J I Hpc Hcon Hfull Hdst Hmres Hmst Hmfin Hclm Hbcm Hresm
          O1 O2 O3 O4 O5 O6 O7 O8 O9 O10 O11 O12 O13 O14 O15 O16.
   destruct (live_of_pc s J Hpc) as [Hnf Hnfin].
   constructor; simpl.
@@ -153,6 +154,7 @@ Proof.
     + apply (q_launch s I H k p Hc).
     + rewrite H in Hc. discriminate.
   - exact O16.
+  - rewrite Hdst. intros H. apply Hclm. apply (q_dlate s I H).
 Qed.
 
 Ltac triv :=
@@ -168,7 +170,7 @@ Ltac triv :=
 Ltac pq J I Epc :=
   eapply (pinv_pc _ _ _ _ J I);
   [ rewrite Epc; discriminate
-  | reflexivity | reflexivity | reflexivity
+  | reflexivity | reflexivity | reflexivity | reflexivity
   | first [reflexivity | symmetry; assumption] | reflexivity
   | triv | triv | triv
   | triv | triv | triv | triv | triv | triv | triv | triv | triv | triv | triv | triv
@@ -225,6 +227,7 @@ Proof.
        pose proof (q_bc s I) as Qbc; pose proof (q_commit s I) as Qcommit;
        pose proof (q_commit_late s I) as Qcl; pose proof (q_clres s I) as Qclres;
        pose proof (q_clres2 s I) as Qclres2; pose proof (q_wait s I) as Qwait;
+       pose proof (q_dlate s I) as Qdlate;
        rewrite Epc in Qcd, Qud, Qtrig, Qmclose, Qscb, Qnoidle, Qmce, Qearly, Qbc, Qcommit,
                       Qcl, Qclres2, Qwait;
        simpl in Qtrig, Qearly.
@@ -299,11 +302,31 @@ Proof.
       { pq J I Epc; fin Epc Qud Qcd.
         intros _. right. apply (no_contracts_none sc s J En). }
       destruct r.
-      * admit.
+      * (* relaunchResolvers *)
+        constructor; simpl; fin Epc Qud Qcd.
+        -- intros [H|[t0 [H|H]]]; discriminate.
+        -- intros _ k p Hc. unfold relaunch. rewrite Hc.
+           pose proof (j_keys sc s J k p Hc) as Hk.
+           destruct (find_spec sc k); [discriminate|contradiction].
+        -- intros _ _ _. destruct (no_contracts_false _ En) as (r0 & p0 & _ & Hc). eauto.
       * pq J I Epc; fin Epc Qud Qcd.
         intros _ _ _. destruct (no_contracts_false _ En) as (r0 & p0 & _ & Hc). eauto.
-    + admit.
-  - admit.
+    + (* Full *)
+      rewrite Hnfin.
+      constructor; simpl; fin Epc Qud Qcd.
+      intros [H|[t0 [H|H]]]; discriminate.
+  - (* MCommit *)
+    assert (Hlv : lvl a < lvl (m_state (mm s))) by (apply (Qcommit a t eq_refl)).
+    constructor; simpl; fin Epc Qud Qcd.
+    + intros _. left. intros ->. simpl in Hlv. destruct (m_state (mm s)); simpl in Hlv; lia.
+    + intros H. apply (Qcl a t eq_refl H).
+    + intros [H|[t0 [H|H]]]; try discriminate. subst a. apply Qscb. right. exists t. right. reflexivity.
+    + intros _ A B. apply Qearly; auto.
+      destruct a, (m_state (mm s)); simpl in *; try reflexivity; try discriminate; lia.
+    + intros -> _. apply (Qclres2 t eq_refl).
+    + unfold launched; simpl. intros [[H _]|[t0 H]]; [|discriminate]. subst a.
+      apply (q_launch s I). right. exists t. exact Epc.
+    + intros H. apply (Qcl a t eq_refl H).
   - (* MBcast *)
     pq J I Epc; fin Epc Qud Qcd. all: try (intros; apply (Qbc t); left; reflexivity).
   - (* MPublish *)
@@ -313,7 +336,119 @@ Proof.
     all: try (intros a0 t0 H; inversion H; rewrite Hsb; simpl; lia).
     all: try (intros a0 t0 H; inversion H; discriminate).
     intros A _. apply Qearly; auto. rewrite Hsb. reflexivity.
-  - admit.
-Admitted.
+  - (* MInsert *)
+    destruct (j_ins sc s J t Epc) as [Hres Hcl].
+    constructor; simpl; fin Epc Qud Qcd.
+    + intros [H|[t0 [H|H]]]; try discriminate. congruence.
+    + intros a0 t0 H. inversion H. rewrite Hcl. simpl. lia.
+    + intros a0 t0 H _. apply Qlate. rewrite Hcl. reflexivity.
+    + intros _ k p Hc. unfold insert_con in Hc. unfold insert_res.
+      destruct (find_spec sc k) eqn:Hf; [discriminate|].
+      exfalso. apply (j_keys sc s J k p Hc Hf).
+Qed.
+
+
+Lemma pinv_res : forall s k, Inv2 sc s -> PInv s -> PInv (res_step sc s k).
+Proof.
+  intros s k J I. unfold res_step.
+  destruct (m_res (mm s) k) as [[p e]|] eqn:Er; [|exact I].
+  destruct (find_spec sc k) as [r|] eqn:Hf; [|exact I].
+  pose proof (q_launch s I) as Ql. pose proof (q_wait s I) as Qw.
+  destruct (nth_error (r_stages r) p) as [g|] eqn:Hn.
+  - destruct e.
+    + destruct I; constructor; simpl; auto.
+      * intros HL k' p' H'. destruct (N.eqb_spec k' k) as [->|Hne].
+        -- rewrite upd_same. discriminate.
+        -- rewrite upd_other in H' by auto. rewrite upd_other by auto. eapply Ql; eauto.
+      * intros _ _ _. exists k, (S p). apply upd_same.
+    + destruct I; constructor; simpl; auto.
+      intros HL k' p' H'. destruct (N.eqb_spec k' k) as [->|Hne].
+      * rewrite upd_same. discriminate.
+      * rewrite upd_other by auto. eapply Ql; eauto.
+  - destruct I; constructor; simpl; auto.
+    + intros HL k' p' H'. destruct (N.eqb_spec k' k) as [->|Hne].
+      * rewrite upd_same in H'. discriminate.
+      * rewrite upd_other in H' by auto. rewrite upd_other by auto. eapply Ql; eauto.
+    + intros; discriminate.
+Qed.
+
+Lemma pinv_anchor : forall s, PInv s -> PInv (anchor_step s).
+Proof.
+  intros s I. unfold anchor_step. destruct (m_anchor (mm s)); auto.
+  destruct I; constructor; simpl; auto. intros; discriminate.
+Qed.
+
+Lemma pinv_fin : forall s, Inv2 sc s -> PInv s -> PInv (fin_step s).
+Proof.
+  intros s J I. unfold fin_step.
+  destruct (m_fin (mm s)) as [[|[|n]]|] eqn:Em; auto.
+  - assert (Hne : m_fin (mm s) <> None) by congruence.
+    destruct (j_fin sc s J Hne) as (Hpc & Hst & _).
+    pose proof (q_cd s I) as Qcd. pose proof (q_late s I) as Qlate.
+    pose proof (q_dlate s I) as Qdlate.
+    rewrite Hpc in Qcd. rewrite Hst in *.
+    constructor; simpl; try solve [triv | intros [H|[t [H|H]]]; discriminate].
+    + intros H. destruct (Qcd H) as [?|[? ?]]; [left; assumption|discriminate].
+    + intros _. left. discriminate.
+    + exact Qlate.
+    + unfold launched; simpl. intros [[H _]|[t H]]; discriminate.
+    + exact Qdlate.
+  - assert (Hne : m_fin (mm s) <> None) by congruence.
+    destruct (j_fin sc s J Hne) as (Hpc & Hst & Hfull).
+    pose proof (Hfull 0 Em) as Ef.
+    pose proof (q_cd s I) as Qcd. pose proof (q_late s I) as Qlate.
+    rewrite Hpc in Qcd. rewrite Hst in *.
+    constructor; simpl; try solve [triv | intros [H|[t [H|H]]]; discriminate | congruence].
+    + intros H. destruct (Qcd H) as [?|[? ?]]; [left; assumption|discriminate].
+    + intros _. left. discriminate.
+    + exact Qlate.
+Qed.
+
+Lemma pinv_crash : forall s, Inv2 sc s -> PInv s -> PInv (step sc s ECrash).
+Proof.
+  intros s J I. simpl. unfold restart. destruct (d_full (dk s)) eqn:Ef.
+  - destruct (j_full sc s J Ef) as (_ & _ & _ & Hst).
+    pose proof (q_dlate s I) as Qdlate.
+    constructor; simpl; try solve [triv | congruence | intros [H|[t [H|H]]]; discriminate].
+    + exact Qdlate.
+    + intros [H|[t [H|H]]]; try discriminate. destruct Hst; congruence.
+    + unfold launched; simpl. intros [[H _]|[t H]]; [|discriminate]. destruct Hst; congruence.
+    + exact Qdlate.
+  - pose proof (j_state sc s J Ef) as Hs.
+    pose proof (q_dlate s I) as Qdlate. pose proof (q_closed s I) as Qclosed.
+    pose proof (q_scb s I) as Qscb. pose proof (q_clres s I) as Qclres.
+    constructor; simpl; try solve [triv | congruence | intros [H|[t [H|H]]]; discriminate].
+    + exact Qdlate.
+    + destruct (d_closed (dk s) && early (d_state (dk s))) eqn:E; [|discriminate].
+      intros _. apply andb_true_iff in E. apply E.
+    + exact Qclosed.
+    + intros [H|[t [H|H]]]; try discriminate. apply Qscb. left. congruence.
+    + intros _ A B. rewrite A, B. reflexivity.
+    + intros A B. apply Qclres; congruence.
+    + unfold launched; simpl. intros [[H H2]|[t H]]; [|discriminate].
+      exfalso. rewrite H in H2. simpl in H2. eapply H2. reflexivity.
+    + exact Qdlate.
+Qed.
+
+Lemma pinv_step : forall s e, Inv2 sc s -> PInv s -> PInv (step sc s e).
+Proof.
+  intros s [[|k| |]|] J I.
+  - apply pinv_main; auto.
+  - apply pinv_res; auto.
+  - apply pinv_anchor; auto.
+  - apply pinv_fin; auto.
+  - apply pinv_crash; auto.
+Qed.
+
+Lemma pinv_run : forall h, PInv (run sc h).
+Proof.
+  intros h.
+  assert (H : Inv2 sc (run sc h) /\ PInv (run sc h)).
+  { apply (reach_ind sc (fun s => Inv2 sc s /\ PInv s)).
+    - split; [apply inv2_init|apply pinv_init].
+    - intros s e [J I]. split; [apply inv2_step; auto|apply pinv_step; auto].
+    - exists h; reflexivity. }
+  apply H.
+Qed.
 
 End Progress.
